@@ -15,13 +15,13 @@ Require Import Pk.RegexProg Pk.RegexProgProofs Pk.Regex Pk.RegexProofs Pk.DataFi
    find_agrees: the offset only moves forward inside the data; a reported match is the match the plain scan finds from the
    old offset (same captures, indices shifted by the move of the offset; an empty match at the offset leaves the offset); no match reported = the plain scan finds none
    from the old offset and none from the new one.
-   Not covered (hence _partial): the fixed-length window loop (min = max, no prefix, non-empty suffix). *)
-Theorem c04_find_shortcut_plain_partial : forall F guard r data off res off',
+   All branches of find are covered, including the fixed-length window loop; the side condition says that the common
+   value of min and max the window loop computes with is a length, not the code's "infinite" 2^64-1. *)
+Theorem c04_find_shortcut_plain : forall F guard r data off res off',
   assertion_free (r_prog r) = true -> facts_sound r -> 2 <= r_ncap r -> off <= length data ->
-  (N.eqb (f_min (r_facts r)) (f_max (r_facts r)) && match f_prefix (r_facts r) with [] => true | _ => false end
-     && match f_suffix (r_facts r) with [] => false | _ => true end = false) ->
+  (f_min (r_facts r) = f_max (r_facts r) -> (f_max (r_facts r) < MAXU)%N) ->
   find F guard r data off = (res, off') -> find_agrees F r data off res off'.
-Proof. exact find_shortcut_plain_partial. Qed.
+Proof. exact find_shortcut_plain. Qed.
 
 (* the facts finalize() computes (LiteralPrefix of a program that is not one-pass, AcceptedLength, ConstantSuffix; for a
    complete literal the literal itself) are sound: this is where C18 is used *)
@@ -106,12 +106,23 @@ Proof. exact stream_selected_spec. Qed.
 Theorem c04_find_ok_guarded : forall F r, context_sensitive r = true -> 2 <= r_ncap r -> find_ok F true r.
 Proof. exact find_ok_guarded. Qed.
 
-Theorem c04_find_ok_shortcuts_partial : forall F guard r,
+Theorem c04_find_ok_shortcuts : forall F guard r,
   assertion_free (r_prog r) = true -> facts_sound r -> 2 <= r_ncap r ->
-  (N.eqb (f_min (r_facts r)) (f_max (r_facts r)) && match f_prefix (r_facts r) with [] => true | _ => false end
-     && match f_suffix (r_facts r) with [] => false | _ => true end = false) ->
+  (f_min (r_facts r) = f_max (r_facts r) -> (f_max (r_facts r) < MAXU)%N) ->
   find_ok F guard r.
-Proof. exact find_ok_shortcuts_partial. Qed.
+Proof. exact find_ok_shortcuts. Qed.
+
+(* ---- the whole chain. prepared r: the program is well-formed, has the two slots of the whole match, and either contains
+   an empty-width assertion (then the fixed code scans plainly) or carries the facts finalize() computes: Prog.Prefix,
+   AcceptedLength (with its memo table), ConstantSuffix, or the literal itself when the expression is a complete literal.
+   For every table of prepared expressions, every converter selection, every disjunction of conjunctions of (possibly
+   negated, possibly expression-sharing) THEN-sequences and every stream, the filter as coded selects the stream exactly
+   when the plain left-to-right scan in conversation order does. *)
+Theorem c04_payload_filters_agree_with_plain_matching : forall F tbl cn ors st,
+  Forall prepared tbl ->
+  (forall cs c e, In cs ors -> In c cs -> In e (c_elems c) -> e_rx e < length tbl) ->
+  stream_selected F true tbl cn ors st = stream_spec F tbl cn ors st.
+Proof. exact filter_is_plain_scan_prepared. Qed.
 
 (* ---- non-vacuity *)
 Definition rx_ab_c : rx := mkRx          (* ab+c : prefix "ab", no suffix (a loop in front empties it), min 3 *)
@@ -138,3 +149,22 @@ Example c04_ex_find2 :
   find 200 true rx_a_c [120; 97; 120; 99; 99; 120]%N 0 = (Some [Some 0; Some 3], 1) /\
   plain 200 rx_a_c [120; 97; 120; 99; 99; 120]%N = Some [Some 1; Some 4].
 Proof. vm_compute. auto. Qed.
+Example c04_ex_prepared : prepared rx_ab_c /\ prepared rx_a_c.
+Proof.
+  split; unfold prepared; (split; [vm_compute; reflexivity|]); (split; [vm_compute; auto|]);
+    (split; [intros H; vm_compute in H |- *; try discriminate; reflexivity|]); right.
+  - exists [97; 98]%N, false. vm_compute. auto.
+  - exists [97]%N, false. vm_compute. auto.
+Qed.
+Definition rx_dot_b : rx := mkRx         (* .b : no prefix, suffix "b", length 2: the fixed-length window loop *)
+  (mkProg [ mkInst IFail 0 0 [] []; mkInst IRuneAnyNotNL 2 0 [0; 9; 11; 1114111]%N []; mkInst IRune1 3 0 [98%N] [];
+            mkInst IMatch 0 0 [] [] ] 1)
+  2 (mkFacts [] [98]%N 2%N 2%N).
+Example c04_ex_window : prepared rx_dot_b /\
+  find 200 true rx_dot_b [98; 10; 98; 120; 98; 98]%N 0 = (Some [Some 0; Some 2], 3) /\
+  plain 200 rx_dot_b [98; 10; 98; 120; 98; 98]%N = Some [Some 3; Some 5].
+Proof.
+  split; [|vm_compute; auto].
+  unfold prepared. split; [vm_compute; reflexivity|]. split; [vm_compute; auto|].
+  split; [intros _; vm_compute; reflexivity|]. right. exists [], false. vm_compute. auto.
+Qed.
